@@ -75,6 +75,16 @@ def check_latent(case):
             tol_ = 1e-12
             require(len(got_l) == len(exp_l) and all(abs(g - e) <= tol_ * max(abs(e), 1e-300) for g, e in zip(got_l, exp_l)),
                     "%s(%r K given as %s) = %r, given as float %r (%s constants)", name, ti, label, got_l, exp_l, vp.type)
+        # the SAME array object refilled in place by the caller and passed again (a time loop re-using its buffer)
+        buf = numpy.array([float(ti), ti + 1.0])
+        first = call(fn, buf)
+        buf += 15.0
+        second = call(fn, buf)
+        want = [float(fn(float(ti) + 15.0)), float(fn(ti + 16.0))]
+        require(not is_raised(first) and not is_raised(second) and
+                all(abs(float(g) - e) <= 1e-12 * max(abs(e), 1e-300) for g, e in zip(numpy.atleast_1d(second), want)),
+                "%s called again with the same array object refilled in place (+15 K) gives %r, scalar calls give %r (%s constants)",
+                name, second, want, vp.type)
     return {"nontrivial": abs(float(h)) > 1.0, "classes": [vp.type, "builtin" if "builtin" in case["component"] else "random"],
             "target": {"cc_relerr": err / max(abs(expect), 1e-12)}}
 
@@ -133,6 +143,22 @@ def check_cooling(case):
     require(a0[0] == t0 and a0[1] == t2 and a1[0] == t1 and a1[1] == t1, "get_cooling_heat modified its array arguments: %r, %r", a0, a1)
     require(abs(float(qa[0]) - q01) <= tol and abs(float(qa[1]) - q(t2, t1)) <= 1e-12 * scale(t2, t1) + 1e-300,
             "get_cooling_heat with array temperatures gives %r, scalar calls give %r, %r", qa, q01, q(t2, t1))
+    # an array in which one interval is empty (upper = lower limit) next to a non-empty one: element-wise, like two scalar calls
+    b0, b1 = numpy.array([t0, t1, t2]), numpy.array([t1, t1, t1])
+    qb = call(comp.get_cooling_heat, b0, b1)
+    require(not is_raised(qb) and numpy.shape(qb) == (3,), "get_cooling_heat with arrays of 3 temperatures (one empty interval) gives %r", qb)
+    require(abs(float(qb[0]) - q01) <= tol and float(qb[1]) == 0.0 and abs(float(qb[2]) - q(t2, t1)) <= 1e-12 * scale(t2, t1) + 1e-300,
+            "get_cooling_heat with arrays containing an empty interval gives %r, scalar calls give %r, 0, %r", qb, q01, q(t2, t1))
+    # the SAME array object refilled in place by the caller and passed again (a time loop re-using its buffer)
+    buf = numpy.array([t0, t2])
+    low = numpy.array([t1, t1])
+    call(comp.get_cooling_heat, buf, low)
+    buf += 7.0
+    qc = call(comp.get_cooling_heat, buf, low)
+    require(not is_raised(qc) and abs(float(qc[0]) - q(t0 + 7.0, t1)) <= 1e-12 * scale(t0 + 7.0, t1) + 1e-300
+            and abs(float(qc[1]) - q(t2 + 7.0, t1)) <= 1e-12 * scale(t2 + 7.0, t1) + 1e-300,
+            "get_cooling_heat called again with the same array object refilled in place gives %r, scalar calls give %r, %r",
+            qc, q(t0 + 7.0, t1), q(t2 + 7.0, t1))
     if "builtin" not in case["component"]:
         # the constants of a component that has already been used are edited in place (a user tuning a fit): the integral must follow
         k.b = k.b * 1.5 + 0.25
